@@ -100,6 +100,36 @@ for _p in ("C04", "C05", "C07", "C08"):
         "assumptions": ["one update stream per target", "gRPC delivers a stream in order without loss (DESIGN.md 3.5)"],
     }
 
+CHECKS["C17"] = {
+    "pkg": "targeth",
+    "quick": {"wall_s": 20},
+    "thorough": {"wall_s": 240, "race_wall_s": 60, "race_max_runs": 1500},
+    "rule": "Scenario: 1..3 loader tasks each loading 1..8 configurations derived by mutation (add/remove/edit target, edit/rename request, "
+            "re-point target, unused requests, invalid variants, nil, revision greater/equal/smaller), optionally on a base configuration; "
+            "handler calls recorded with stamps on the loader's own goroutine; map iteration order (the order of handler calls) drawn from "
+            "the tape. Oracles: no handler call and no change for a rejected load, exact diff per accepted load, replay == Current(), and "
+            "porcupine on the accept/reject decisions against the revision rule. Non-trivial: >= 2 loads.",
+    "real": ["target (instrumented)", "protobuf runtime"],
+    "stub": [],
+    "assumptions": [],
+}
+
+CHECKS["C16"] = {
+    "pkg": "connectionh",
+    "quick": {"wall_s": 20, "race_wall_s": 12, "race_max_runs": 1000},
+    "thorough": {"wall_s": 240, "race_wall_s": 120, "race_max_runs": 1800},
+    "rule": "Scenario: 2..5 tasks requesting and releasing connections (sometimes twice, sometimes after a failed request) over 1..3 "
+            "addresses with 1..3 cancellable contexts; scripted dial outcomes per address (success / error / blocked until its context is "
+            "cancelled, each after an optional virtual delay); the ref++ -> wait-for-ready gap and the dial-failure path are scheduling "
+            "points. Then every context is cancelled and every request must return. Oracles on stamps: at most one dial in flight per "
+            "address, a connection is never closed before every holder released it and never handed out after it was closed, closed "
+            "exactly once when all holders released, and a fresh request to an address nobody holds dials afresh. "
+            "Non-trivial: >= 2 tasks and >= 2 requests.",
+    "real": ["connection (instrumented)"],
+    "stub": ["grpc.ClientConn (simgrpc.ClientConn: Close/GetState only)", "dial functions (scripted by the harness)"],
+    "assumptions": [],
+}
+
 UNDER_CONSTRUCTION = "check under construction, not claimed yet"
 NOT_APPLICABLE = {p: UNDER_CONSTRUCTION for p in ["C%02d" % i for i in range(1, 21)]}
 NOT_APPLICABLE["C19"] = ("pure functions of their input (path indexing, value conversion): no schedule, clock, fault, peer or "
@@ -113,6 +143,22 @@ _SUB_NOTE = ("Trusts the harness's reading of paths (sim/gen), the cache referen
              "stream's gRPC semantics (FIFO, reliable, window-limited) and interval reasoning on global event stamps. Leaves that are only "
              "stream-compatible with a subscription (shorter than its path) are outside 'matching content' and not judged.")
 LEVELS = {
+    "C16": {
+        "text": "Seeded search over interleavings of Connection()/done() callers with scripted dial outcomes (fault injection at the dial seam: "
+                "refusal, slow dial, dial blocked until cancelled) and context cancellations at arbitrary points; reference-count clauses "
+                "checked on event stamps, deadlock by quiescence after cancelling everything. Evidence, not proof.",
+        "design_ref": "7 C16",
+        "note": "The connection object is the simulated ClientConn (Close is observed through a hook); dial functions are the harness's.",
+        "technique": "deterministic simulation: seeded scheduler + scripted dial faults + stamp-based reference-count oracle",
+    },
+    "C17": {
+        "text": "Seeded exploration of configuration histories, sequential and with concurrent loaders under the seeded scheduler and seeded map "
+                "order; handler-call replay is compared with Current() and every accepted load's calls with the exact diff; accept/reject "
+                "decisions are checked for linearizability against the revision rule. Evidence, not proof.",
+        "design_ref": "7 C17",
+        "note": "Trusts the harness's own validity rules (targeth.validate) and canonical serialisation of targets and requests.",
+        "technique": "deterministic simulation (seeded scheduler and map order) with replay-equivalence and porcupine oracles",
+    },
     "C04": {
         "text": "Seeded search over interleavings of per-target writers with STREAM subscriptions that start at arbitrary scheduling points; the "
                 "registration/walk, tree-write/feed and enqueue/dequeue windows are lock or channel boundaries and therefore scheduling points. "
